@@ -8,6 +8,7 @@ package main
 // variant is analysed by a separate process of this binary.
 
 import (
+	"context"
 	"encoding/json"
 	"fmt"
 	"os"
@@ -17,6 +18,7 @@ import (
 	"sort"
 	"strings"
 	"sync"
+	"time"
 )
 
 type variantEdit struct {
@@ -85,7 +87,9 @@ func runSelf(root, prop string) (int, []string, string) {
 	self, _ := os.Executable()
 	ev, _ := os.MkdirTemp("", "gmars-ev.")
 	defer os.RemoveAll(ev)
-	cmd := exec.Command(self, "-prop", prop, "-root", root, "-evidence", ev, "-known", filepath.Join(verifDir, "known_findings.json"))
+	ctx, cancel := context.WithTimeout(context.Background(), 5*time.Minute)
+	defer cancel()
+	cmd := exec.CommandContext(ctx, self, "-prop", prop, "-root", root, "-evidence", ev, "-known", filepath.Join(verifDir, "known_findings.json"))
 	out, err := cmd.CombinedOutput()
 	code := 0
 	if err != nil {
